@@ -60,20 +60,29 @@ KINDS = ("ImageBatch", "Image", "FlowFields", "FlowField")
 # ---------------------------------------------------------------------------
 # universe: source items with distinct integer grids and self-describing data
 def _specs(D):
+    """Spatial tensor shape and grid descriptions: one grid per source item plus ONE extra grid (last entry, "X")
+    that belongs to no item and is only ever attached by the in-place setter grid_().
+    Batch sizes (5 for D=2, 6 for D=3) differ from the tensor ndim (4, 5), the channel counts and every spatial size."""
     if D == 2:
-        shape = (5, 6)  # tensor order (Y, X)
+        shape = (6, 7)  # tensor order (Y, X)
         grids = [
             dict(spacing=(1, 1), origin=(0, 0), direction=((1, 0), (0, 1)), ac=True),
             dict(spacing=(2, 3), origin=(10, -7), direction=((-1, 0), (0, 1)), ac=False),
             dict(spacing=(1, 2), origin=(-20, 40), direction=((0, 1), (1, 0)), ac=True),
+            dict(spacing=(3, 1), origin=(33, 15), direction=((1, 0), (0, -1)), ac=True),
+            dict(spacing=(2, 2), origin=(-50, -60), direction=((0, -1), (1, 0)), ac=False),
+            dict(spacing=(4, 5), origin=(70, 80), direction=((-1, 0), (0, -1)), ac=True),  # X
         ]
     else:
-        shape = (6, 7, 8)  # (Z, Y, X)
+        shape = (4, 7, 8)  # (Z, Y, X)
         grids = [
             dict(spacing=(1, 1, 1), origin=(0, 0, 0), direction=((1, 0, 0), (0, 1, 0), (0, 0, 1)), ac=True),
             dict(spacing=(2, 3, 1), origin=(10, -7, 5), direction=((-1, 0, 0), (0, 1, 0), (0, 0, 1)), ac=False),
             dict(spacing=(1, 2, 2), origin=(-20, 40, 3), direction=((0, 1, 0), (1, 0, 0), (0, 0, 1)), ac=True),
             dict(spacing=(3, 1, 2), origin=(7, 8, -9), direction=((1, 0, 0), (0, 0, -1), (0, 1, 0)), ac=True),
+            dict(spacing=(2, 2, 3), origin=(-50, -60, 11), direction=((0, -1, 0), (1, 0, 0), (0, 0, 1)), ac=False),
+            dict(spacing=(1, 3, 3), origin=(25, -35, 45), direction=((0, 0, 1), (0, 1, 0), (1, 0, 0)), ac=True),
+            dict(spacing=(4, 5, 2), origin=(70, 80, -90), direction=((-1, 0, 0), (0, -1, 0), (0, 0, 1)), ac=True),  # X
         ]
     return shape, grids
 
@@ -86,7 +95,7 @@ class Universe:
     def __init__(self, D):
         self.D = D
         self.shape, self.gspecs = _specs(D)
-        self.N = len(self.gspecs)
+        self.N = len(self.gspecs) - 1  # the last grid ("X") belongs to no item
         n = int(np.prod(self.shape))
         lin = np.arange(n, dtype=np.float64).reshape(self.shape)
         # index lattice with x first: idx[..., 0] = x index = last tensor dim
@@ -94,7 +103,7 @@ class Universe:
         idx = np.stack(axes[::-1], axis=-1)  # (..., D) in (x, y[, z]) order
         self.img_channels = []  # per item: list of arrays
         self.flow_channels = []
-        for i, g in enumerate(self.gspecs):
+        for i, g in enumerate(self.gspecs[: self.N]):
             R = np.array(g["direction"], dtype=np.float64)
             s = np.array(g["spacing"], dtype=np.float64)
             o = np.array(g["origin"], dtype=np.float64)
@@ -215,6 +224,13 @@ class Ctx:
     def other(self):
         return self.U.build(self.kind, "other", self.plain)
 
+    def grid_x(self, x):
+        """The extra grid X (belongs to no item); precondition of grid_(): it fits the spatial shape of x."""
+        D = self.U.D
+        if x.ndim < D + 1 or tuple(x.shape[-D:]) != tuple(self.U.shape):
+            raise ValueError("grid_(X) not enabled: spatial shape of the value differs from the grid shape")
+        return None if self.plain else self.U.real_grid(self.U.N)
+
     @staticmethod
     def zeros(x):
         return torch.zeros(tuple(x.shape), dtype=x.dtype)
@@ -229,6 +245,34 @@ def _perm_index(x):
     n = x.shape[0]
     perm = torch.tensor([(k - 1) % n for k in range(n)])
     return perm.reshape(-1, *([1] * (x.ndim - 1))).expand(x.shape)
+
+
+def _set_grid(x, c, touch=None):
+    """In-place setter x.grid_(X), optionally after an operation whose result is discarded (same object history)."""
+    g = c.grid_x(x)
+    if touch == "batch" and x.ndim != c.U.D + 1:
+        raise ValueError("batch() exists for single images only")
+    if c.plain:
+        return x
+    if touch == "batch" and hasattr(x, "batch"):
+        x.batch()
+    elif touch == "narrow":
+        x.narrow(0, 0, x.shape[0])
+    elif touch == "crop" and hasattr(x, "crop"):
+        x.crop(0)
+    return x.grid_(g)
+
+
+def _peek(x, c, what):
+    """Evaluate an operation on x, discard the result, continue with the SAME object."""
+    if what == "batch":
+        if x.ndim != c.U.D + 1:
+            raise ValueError("batch() exists for single images only")
+        if not c.plain and hasattr(x, "batch"):
+            x.batch()
+    elif what == "narrow":
+        x.narrow(0, 0, x.shape[0])
+    return x
 
 
 def _sizes0(x):
@@ -371,6 +415,16 @@ def _build_alphabet():
     A("torch.narrow(-ndim,1,2)", S, lambda x, c: torch.narrow(x, -x.ndim, 1, 2))
     A("torch.narrow(0,start=1,length=2)", S, lambda x, c: torch.narrow(x, 0, start=1, length=2))
     A("torch.narrow(0,-2,2)", S, lambda x, c: torch.narrow(x, 0, -2, 2))
+    A("torch.narrow(-ndim,-2,2)", S, lambda x, c: torch.narrow(x, -x.ndim, -2, 2))
+    A("torch.narrow(0,-3,2)", S, lambda x, c: torch.narrow(x, 0, -3, 2))
+    A("torch.narrow(0,-1,1)", S, lambda x, c: torch.narrow(x, 0, -1, 1))
+    A("narrow(-ndim,-2,2)", S, lambda x, c: x.narrow(-x.ndim, -2, 2))
+    A("index_select(0,(-1,0))", S, lambda x, c: x.index_select(0, torch.tensor([x.shape[0] - 1, 0])))
+    A("select(0,-1)", S, lambda x, c: x.select(0, -1))
+    A("getitem(-2:)", S, lambda x, c: x[-2:])
+    A("getitem(list(-1,0))", S, lambda x, c: x[[-1, 0]])
+    A("getitem(tensor(-1,-2))", S, lambda x, c: x[torch.tensor([-1, -2])])
+    A("getitem(-3:-1)", S, lambda x, c: x[-3:-1])
     A("select(-ndim,1)", S, lambda x, c: x.select(-x.ndim, 1))
     C = "cat"
     A("cat(x,x)", C, lambda x, c: torch.cat([x, x]))
@@ -566,6 +620,13 @@ def _build_alphabet():
     A("data", L, lambda x, c: x.data)
     A("requires_grad_(False)", L, lambda x, c: x.requires_grad_(False))
     A("clone(contiguous_format)", L, lambda x, c: x.clone(memory_format=torch.contiguous_format))
+    G = "setter"
+    A("grid_(X)", G, lambda x, c: _set_grid(x, c), menu=True)
+    A("batch();grid_(X)", G, lambda x, c: _set_grid(x, c, "batch"))
+    A("narrow(0,full);grid_(X)", G, lambda x, c: _set_grid(x, c, "narrow"))
+    A("crop(0);grid_(X)", G, lambda x, c: _set_grid(x, c, "crop"))
+    A("peek:batch()", G, lambda x, c: _peek(x, c, "batch"), menu=True)
+    A("peek:narrow(0,full)", G, lambda x, c: _peek(x, c, "narrow"))
     T2 = "iter"
     A("iter", T2, lambda x, c: list(x), menu=True)
     A("reversed", T2, lambda x, c: list(reversed(x)))
@@ -591,7 +652,8 @@ MENU2 = MENU + [
     "repeat_interleave(2,dim=0)", "flatten(0,1)", "reshape(same)", "interpolate(scale=2)", "max_pool(1)", "avg_pool(2)",
     "float()", "to(same_dtype)", "long()", "contiguous()", "data", "torch.save_load",
     "flip(2,0)", "roll((1,1),(2,0))", "narrow(dim=-ndim,start=1,length=2)", "index_select(dim=-ndim,index=(2,0))",
-    "tensor_split(list(1),dim=-ndim)", "cat(other,x;-ndim)",
+    "tensor_split(list(1),dim=-ndim)", "cat(other,x;-ndim)", "batch();grid_(X)", "narrow(0,full)", "torch.narrow(0,-2,2)",
+    "narrow(0,-2,2)",
 ]
 assert all(n in OPS for n in MENU2) and len(set(MENU2)) == len(MENU2)
 
@@ -604,7 +666,7 @@ def bounds(tier):
     return {
         "dimensions": list(dims_for(tier)),
         "initial_values_per_dimension": len(KINDS),
-        "items_per_batch": {"D2": 3, "D3": 4},
+        "items_per_batch": {"D2": 5, "D3": 6},
         "alphabet": len(ORDER),
         "menu_for_length_3": len(MENU),
         "second_operation_menu": len(MENU2) if tier == "quick" else len(ORDER),
@@ -686,7 +748,7 @@ def entry_verdicts(U: Universe, R, aff):
     return [decode_entry(U, e, affs) for e in entries]
 
 
-def judge_value(U: Universe, kind: str, R, aff, mixed=False):
+def judge_value(U: Universe, kind: str, R, aff, mixed=False, regrid=False):
     """Judge ONE typed result from its own data.  -> (problems [(name, detail)], obs tuple, undef reasons)"""
     from deepali.core.grid import Grid
 
@@ -726,7 +788,7 @@ def judge_value(U: Universe, kind: str, R, aff, mixed=False):
     for a in gattrs:
         gid = -1
         if a is not None:
-            for i in range(U.N):
+            for i in range(U.N + 1):
                 if same_attrs(a, U.grid_attrs(i)):
                     gid = i
                     break
@@ -755,7 +817,12 @@ def judge_value(U: Universe, kind: str, R, aff, mixed=False):
             _, i, intact = verdict
             items.append(i if intact else f"{i}~")
             any_item = True
-            carried = f"the grid of source item {gids[k]}" if gids[k] >= 0 else "a grid of no source item"
+            carried = f"the grid of source item {gids[k]}" if 0 <= gids[k] < U.N else ("the grid X" if gids[k] == U.N else "a grid of no source item")
+            if regrid:
+                # the in-place setter grid_(X) was the last word on the grid of every entry of this value
+                if intact and gids[k] != U.N:
+                    problems.append(("stale-grid-after-grid_", f"entry {k} (data of item {i}) carries {carried} although grid_(X) set the grid X"))
+                continue
             if intact and gids[k] != i:
                 problems.append(("wrong-item-grid", f"entry {k} holds the data of source item {i} but carries {carried}"))
             elif not intact and gids[k] >= 0 and gids[k] != i:
@@ -823,6 +890,7 @@ class Run:
         self.p = self.U.build(kind, "base", plain=True)
         self.aff = (1, 0)
         self.mixed = False  # an entry holds channels of items with different grids (provenance then undefined)
+        self.regrid = False  # grid_(X) was applied: every entry of the value carries the grid set last
 
     def step(self, name):
         """-> ("disabled", exc) | ("raises", exc) | ("ok", impl_result, plain_result, new_aff, in_type)"""
@@ -870,7 +938,11 @@ def execute(D, kind, steps, acc: Acc = None):
             # a single image combined with ANOTHER image (different grid) along channels / by broadcasting:
             # which grid such a result should carry is not promised -> provenance undefined from here on
             run.mixed = True
+        if run.regrid and "other" in name:
+            run.mixed = True  # entries with the re-set grid X combined with entries that keep their own grid: not tracked
         res = run.step(name)
+        if "grid_(X)" in name and res[0] == "ok":
+            run.regrid = True
         if acc is not None and last and res[0] != "disabled":
             acc.trans()
         if res[0] == "disabled":
@@ -894,7 +966,7 @@ def execute(D, kind, steps, acc: Acc = None):
                 info["copy"] = True
             for k, el in enumerate(els):
                 if typed(el):
-                    problems, obs, undefs = judge_value(run.U, kind, el, aff, run.mixed)
+                    problems, obs, undefs = judge_value(run.U, kind, el, aff, run.mixed, run.regrid)
                     for problem, detail in problems:
                         out.append((sig_of(name, in_type, problem), (f"element {k}: " if len(els) > 1 else "") + detail))
                     obs_all.append(obs)
